@@ -78,6 +78,10 @@ def check(cx):
     depends(cx, r6, 'C02', ('R2.3', 'R2.5', 'R2.6'), 'the connection owns the nick it tears down')
     depends(cx, r6, 'C02', ('R2.1',), 'only the teardown takes a user out of the registry (it finds the entry it has to clean up after)',
             only=r'registry-remove|calls-remove_user')
+    # the teardown clears the containers under the nick the connection holds now: every nick-keyed container must hold the user under
+    # that nick, i.e. a nick change moves every entry (an entry left under the old nick survives the session)
+    depends(cx, r6, 'C15', ('R15.2',), 'a nick change leaves no entry under the old nick (the teardown only clears the current one)',
+            only=r'rekey')
 
     # ---------------------------------------------------------------- R6.2
     r2 = cx.rule('R6.2', 'termination causes store the quit flag', floor=4, kind='must-exist')
